@@ -1,6 +1,8 @@
 package core
 
 import (
+	"math/big"
+	"strconv"
 	"encoding/base64"
 	"encoding/hex"
 	"reflect"
@@ -75,3 +77,162 @@ func (p *Pkg) KeyLeafPaths(entry interface{}, ep Path) map[string]Value {
 
 // HasPrefixFold is a tiny helper for error classification.
 func HasPrefixFold(s, p string) bool { return strings.HasPrefix(strings.ToLower(s), strings.ToLower(p)) }
+
+// KeyMatches reports whether the gNMI key string s denotes the key value v (reference parser:
+// decimal digits for integers, any float syntax for decimal64, names, true/false, base64).
+func KeyMatches(v Value, s string) bool {
+	switch v.Kind() {
+	case "str", "enum", "bool":
+		if v.Kind() == "enum" {
+			if i := strings.LastIndex(s, ":"); i >= 0 && s[i+1:] == v.Payload() {
+				return true
+			}
+		}
+		return s == v.Payload()
+	case "dec":
+		a, ok1 := new(big.Rat).SetString(s)
+		b, ok2 := new(big.Rat).SetString(v.Payload())
+		if ok1 && ok2 {
+			return a.Cmp(b) == 0
+		}
+		f1, e1 := strconv.ParseFloat(s, 64)
+		f2, e2 := strconv.ParseFloat(v.Payload(), 64)
+		return e1 == nil && e2 == nil && f1 == f2
+	case "bin":
+		b, _ := hex.DecodeString(v.Payload())
+		return base64.StdEncoding.EncodeToString(b) == s
+	case "empty":
+		return s == "true"
+	}
+	// integers
+	a, ok1 := new(big.Int).SetString(s, 10)
+	b, ok2 := new(big.Int).SetString(v.Payload(), 10)
+	return ok1 && ok2 && a.Cmp(b) == 0
+}
+
+// MatchesGNMI reports whether gNMI path g (prefix already joined) denotes model path p exactly.
+func (p Path) MatchesGNMI(g []*gpb.PathElem) bool {
+	if len(g) != len(p) {
+		return false
+	}
+	return p.matchPrefix(g)
+}
+
+// CoveredByGNMI reports whether model path p lies at or below gNMI path g (missing keys = wildcard).
+func (p Path) CoveredByGNMI(g []*gpb.PathElem) bool {
+	if len(g) > len(p) {
+		return false
+	}
+	return p[:len(g)].matchPrefixPartial(g)
+}
+
+func (p Path) matchPrefix(g []*gpb.PathElem) bool {
+	for i, e := range g {
+		if e.GetName() != p[i].Name || len(e.GetKey()) != len(p[i].Keys) {
+			return false
+		}
+		for _, kv := range p[i].Keys {
+			s, ok := e.GetKey()[kv.Name]
+			if !ok || !KeyMatches(kv.Val, s) {
+				return false
+			}
+		}
+	}
+	return true
+}
+
+func (p Path) matchPrefixPartial(g []*gpb.PathElem) bool {
+	for i, e := range g {
+		if e.GetName() != p[i].Name {
+			return false
+		}
+		for k, s := range e.GetKey() {
+			found := false
+			for _, kv := range p[i].Keys {
+				if kv.Name == k {
+					found = KeyMatches(kv.Val, s)
+				}
+			}
+			if !found {
+				return false
+			}
+		}
+	}
+	return true
+}
+
+// JoinElems joins prefix and path elements.
+func JoinElems(prefix, path *gpb.Path) []*gpb.PathElem {
+	var out []*gpb.PathElem
+	out = append(out, prefix.GetElem()...)
+	return append(out, path.GetElem()...)
+}
+
+// TVMatches reports whether the TypedValue denotes the canonical value v (scalar encodings only).
+func TVMatches(tv *gpb.TypedValue, v Value) bool {
+	if tv == nil {
+		return false
+	}
+	if v.IsLL() {
+		ll, ok := tv.GetValue().(*gpb.TypedValue_LeaflistVal)
+		if !ok {
+			return false
+		}
+		es := v.Elems()
+		if len(ll.LeaflistVal.GetElement()) != len(es) {
+			return false
+		}
+		for i, e := range es {
+			if !TVMatches(ll.LeaflistVal.Element[i], e) {
+				return false
+			}
+		}
+		return true
+	}
+	switch v.Kind() {
+	case "str":
+		x, ok := tv.GetValue().(*gpb.TypedValue_StringVal)
+		return ok && x.StringVal == v.Payload()
+	case "enum":
+		x, ok := tv.GetValue().(*gpb.TypedValue_StringVal)
+		if !ok {
+			return false
+		}
+		s := x.StringVal
+		if i := strings.LastIndex(s, ":"); i >= 0 {
+			s = s[i+1:]
+		}
+		return s == v.Payload()
+	case "bool":
+		x, ok := tv.GetValue().(*gpb.TypedValue_BoolVal)
+		return ok && strconv.FormatBool(x.BoolVal) == v.Payload()
+	case "empty":
+		x, ok := tv.GetValue().(*gpb.TypedValue_BoolVal)
+		return ok && x.BoolVal
+	case "bin":
+		x, ok := tv.GetValue().(*gpb.TypedValue_BytesVal)
+		return ok && hex.EncodeToString(x.BytesVal) == v.Payload()
+	case "dec":
+		want, _ := strconv.ParseFloat(v.Payload(), 64)
+		switch x := tv.GetValue().(type) {
+		case *gpb.TypedValue_DoubleVal:
+			return x.DoubleVal == want
+		case *gpb.TypedValue_FloatVal:
+			return float64(x.FloatVal) == want
+		case *gpb.TypedValue_DecimalVal:
+			r := new(big.Rat).SetFrac(big.NewInt(x.DecimalVal.GetDigits()), new(big.Int).Exp(big.NewInt(10), big.NewInt(int64(x.DecimalVal.GetPrecision())), nil))
+			w, _ := new(big.Rat).SetString(v.Payload())
+			return r.Cmp(w) == 0
+		}
+		return false
+	}
+	if strings.HasPrefix(v.Kind(), "i") {
+		x, ok := tv.GetValue().(*gpb.TypedValue_IntVal)
+		return ok && strconv.FormatInt(x.IntVal, 10) == v.Payload()
+	}
+	if strings.HasPrefix(v.Kind(), "u") {
+		x, ok := tv.GetValue().(*gpb.TypedValue_UintVal)
+		return ok && strconv.FormatUint(x.UintVal, 10) == v.Payload()
+	}
+	return false
+}
